@@ -13,24 +13,24 @@ open BM
 theorem slice_mirror (l : Bits) (a b : Int) :
     slice_ .lsb0 l a b = (slice_ .msb0 l.reverse a b).map List.reverse := getslice2_mirror l _ _
 
-theorem insert_mirror (l v : Bits) (pos : Int) (h0 : 0 ≤ pos) :
+theorem insert_mirror (l v : Bits) (pos : Int) :
     insert_ .lsb0 l v pos = (insert_ .msb0 l.reverse v.reverse pos).map List.reverse :=
-  setslice_mirror l _ v rfl (by simp) (invertedAssign_false_of_le pos pos l.length h0 (by omega))
+  setslice_mirror l _ v
 
-theorem overwrite_mirror (l v : Bits) (pos : Int) (h0 : 0 ≤ pos) :
+theorem overwrite_mirror (l v : Bits) (pos : Int) :
     overwrite_ .lsb0 l v pos = (overwrite_ .msb0 l.reverse v.reverse pos).map List.reverse := by
   unfold overwrite_
   rw [List.length_reverse]
-  exact setslice_mirror l _ v rfl (by simp) (invertedAssign_false_of_le pos _ l.length h0 (by omega))
+  exact setslice_mirror l _ v
 
 theorem delete_mirror (l : Bits) (k pos : Int) :
     delete_ .lsb0 l k pos = (delete_ .msb0 l.reverse k pos).map List.reverse :=
-  delslice_mirror l _ rfl (by simp)
+  delslice_mirror l _
 
-theorem setvalid_mirror (l v : Bits) (a b : Int) (h0 : 0 ≤ a) (hab : a ≤ b) :
+theorem setvalid_mirror (l v : Bits) (a b : Int) :
     setitemSlice .lsb0 l ⟨some a, some b, none⟩ v
       = (setitemSlice .msb0 l.reverse ⟨some a, some b, none⟩ v.reverse).map List.reverse :=
-  setslice_mirror l _ v rfl (by simp) (invertedAssign_false_of_le a b l.length h0 hab)
+  setslice_mirror l _ v
 
 theorem beq_reverse_left (s t : Bits) : (s.reverse == t) = (s == t.reverse) := by
   rw [Bool.eq_iff_iff]
@@ -162,7 +162,7 @@ theorem insertOp_mirror (l v : Bits) (pos : Int) :
     by_cases hv : v.length = 0
     · simp [hv, Except.map]
     · simp only [hv, if_false]
-      exact insert_mirror l v p (by omega)
+      exact insert_mirror l v p
 
 theorem overwriteOp_mirror (l v : Bits) (pos : Int) :
     overwriteOp .lsb0 l v pos = (overwriteOp .msb0 l.reverse v.reverse pos).map List.reverse := by
@@ -175,7 +175,7 @@ theorem overwriteOp_mirror (l v : Bits) (pos : Int) :
     by_cases hv : v.length = 0
     · simp [hv, Except.map]
     · simp only [hv, if_false]
-      exact overwrite_mirror l v p (by omega)
+      exact overwrite_mirror l v p
 
 theorem reverseOp_mirror (l : Bits) (start stop : Option Int) :
     reverseOp .lsb0 l start stop = (reverseOp .msb0 l.reverse start stop).map List.reverse := by
@@ -194,7 +194,7 @@ theorem reverseOp_mirror (l : Bits) (start stop : Option Int) :
       | error e => rfl
       | ok s =>
         simp only [Except.map]
-        rw [setvalid_mirror l _ a b (by omega) (by omega), List.reverse_reverse]
+        rw [setvalid_mirror l _ a b, List.reverse_reverse]
         rfl
 
 
@@ -224,7 +224,7 @@ theorem rorBody_mirror (l : Bits) (bits : Nat) (start stop : Option Int) :
           | error e => rfl
           | ok l1 =>
             simp only [Except.map]
-            rw [insert_mirror l1.reverse rhs.reverse a (by omega), List.reverse_reverse, List.reverse_reverse]
+            rw [insert_mirror l1.reverse rhs.reverse a, List.reverse_reverse, List.reverse_reverse]
             rfl
 
 theorem rolBody_mirror (l : Bits) (bits : Nat) (start stop : Option Int) :
@@ -253,7 +253,7 @@ theorem rolBody_mirror (l : Bits) (bits : Nat) (start stop : Option Int) :
           | error e => rfl
           | ok l1 =>
             simp only [Except.map]
-            rw [insert_mirror l1.reverse lhs.reverse ((b : Int) - (bits % (b - a) : Nat)) (by omega),
+            rw [insert_mirror l1.reverse lhs.reverse ((b : Int) - (bits % (b - a) : Nat)),
               List.reverse_reverse, List.reverse_reverse]
             rfl
 
@@ -280,7 +280,7 @@ theorem readFn_mirror (l : Bits) (pos k : Nat) :
   simp only [List.length_reverse]
   split
   · rfl
-  · exact getslice_mirror l _ rfl (by simp)
+  · exact getslice_mirror l _
 
 theorem readOp_mirror (l : Bits) (pos : Nat) (tk : Tok) (k : Nat) :
     readOp .lsb0 l pos tk k = (readOp .msb0 l.reverse pos tk k).map fun r => (r.1.reverse, r.2) := by
